@@ -29,7 +29,11 @@ pub async fn handle_did_open_text_document(
     state.documents.handle_open_file(&uri).await;
 
     send_new_compilation_request(state, session.clone(), &uri, None, false, sync_workspace);
+    #[cfg(fuellabs_sway_verif)]
+    sway_types::verif_hooks::point("open.before_set_compiling", &|| String::new());
     state.is_compiling.store(true, Ordering::SeqCst);
+    #[cfg(fuellabs_sway_verif)]
+    sway_types::verif_hooks::point("open.set_compiling", &|| String::new());
     state.wait_for_parsing().await;
     state
         .publish_diagnostics(uri, params.text_document.uri, session)
@@ -48,20 +52,32 @@ fn send_new_compilation_request(
 ) {
     let file_versions = file_versions(&state.documents, uri, version.map(|v| v as u64));
 
+    #[cfg(fuellabs_sway_verif)]
+    sway_types::verif_hooks::point("send.begin", &|| format!("{version:?}"));
     if state.is_compiling.load(Ordering::SeqCst) {
+        #[cfg(fuellabs_sway_verif)]
+        sway_types::verif_hooks::point("send.read_compiling_true", &|| String::new());
         // If we are already compiling, then we need to retrigger compilation
         state.retrigger_compilation.store(true, Ordering::SeqCst);
+        #[cfg(fuellabs_sway_verif)]
+        sway_types::verif_hooks::point("send.set_retrigger", &|| String::new());
     }
+    #[cfg(fuellabs_sway_verif)]
+    sway_types::verif_hooks::point("send.before_full_check", &|| String::new());
 
     // Check if the channel is full. If it is, we want to ensure that the compilation
     // thread receives only the most recent value.
     if state.cb_tx.is_full() {
         while let Ok(TaskMessage::CompilationContext(_)) = state.cb_rx.try_recv() {
+            #[cfg(fuellabs_sway_verif)]
+            sway_types::verif_hooks::point("send.drained_one", &|| String::new());
             // Loop will continue to remove `CompilationContext` messages
             // until the channel has no more of them.
         }
     }
 
+    #[cfg(fuellabs_sway_verif)]
+    sway_types::verif_hooks::about_to_block("send.before_send", &|| format!("{version:?}"));
     let _ = state
         .cb_tx
         .send(TaskMessage::CompilationContext(CompilationContext {
@@ -77,6 +93,8 @@ fn send_new_compilation_request(
             file_versions,
             sync: sync_workspace,
         }));
+    #[cfg(fuellabs_sway_verif)]
+    sway_types::verif_hooks::resumed("send.sent", &|| format!("{version:?}"));
 }
 
 pub async fn handle_did_change_text_document(
